@@ -219,6 +219,7 @@ def o_parse_options(I, fn, n, args, st):
                 else:
                     s.mem[("f", inp, "data")] = fs("PTR")
                     s.mem[("f", inp, "size")] = I.nonneg()
+                    s.mon["input"] = "set"
                 s.mem[("f", t, "deadline")] = frozenset(a for a in I.TOP_INT if a != 0)
                 for fld in ("first", "second", "third"):
                     s.mem[("f", ("f", ("f", t, "stop"), fld), "action")] = fs(("sym", "parsed.stop.%s.action" % fld))
